@@ -1,7 +1,7 @@
 (* C03: the arithmetic builtins outside the operator tables and the flag conversions, about the REAL exported templates
    (GenBuiltins.v is regenerated from /repo on every run), both front ends, variable and literal operands:
      shift(x, n)            = x * 2^n wrapped to the type of x for n >= 0 (0 for n >= 256), floor(x / 2^-n) for n < 0
-                              (arithmetic for int256; 0 / -1 for n <= -256)   [n <= MAXS: see shift_amount_defect]
+                              (arithmetic for int256; 0 / -1 for n <= -256); an unsigned amount never shifts right
      abs(x)                 = |x|, reverts exactly for x = MIN_INT256
      uint256_addmod/mulmod  = (a + b) mod c / (a * b) mod c over the integers, revert exactly for c = 0
      pow_mod256(a, b)       = a^b mod 2^256
@@ -42,11 +42,16 @@ Proof.
   - cbn [b_spec]. replace (c =? 0) with false by lia. reflexivity.
 Qed.
 
-Theorem shift_amount_defect :
+Theorem shift_amount_regression :
   in_range uint256_t MAXU /\
-  leval [("x"%string, wrap 12); ("y"%string, wrap MAXU)] (m_shift false (LVar "x") (LVar "y")) = Val 6 /\
-  shift_spec false 12 256 = 0 /\ (forall n, 256 <= n -> twrap (int_t false) (12 * 2 ^ n) = 0).
-Proof. exact shift_unsigned_amount_refuted. Qed.
+  leval [("x"%string, wrap 12); ("y"%string, wrap MAXU)] (m_shift false false (LVar "x") (LVar "y")) = Val 0 /\
+  leval [("x"%string, wrap 12); ("y"%string, wrap MAXU)] (m_shift false true (LVar "x") (LVar "y")) = Val 6.
+Proof. exact shift_unsigned_amount_regression. Qed.
+
+(* shift by |n| >= 256 (shift_large, BuiltinTie.v): 0 for n >= 256; 0 / -1 for n <= -256 *)
+Corollary shift_out_of_width sx x n : in_range (int_t sx) x ->
+  (256 <= n -> shift_spec sx x n = 0) /\ (n <= -256 -> shift_spec sx x n = if x <? 0 then -1 else 0).
+Proof. apply shift_large. Qed.
 
 (* flags with every member count *)
 Theorem legacy_flag_convert_exact : forall Tin Tout t, In (Tin, Tout, t) legacy_flag_converts ->
